@@ -6,6 +6,7 @@ pub mod esc;
 pub mod hash;
 pub mod nsprobe;
 pub mod pass;
+pub mod proto;
 pub mod lex;
 pub mod mem;
 pub mod memrw;
@@ -27,6 +28,7 @@ pub fn find(name: &str) -> Option<LaneFn> {
         "hash" => hash::run,
         "nsprobe" => nsprobe::run,
         "pass" => pass::run_lane,
+        "proto" => proto::run,
         "lex" => lex::run,
         "mem" => mem::run,
         "memrw" => memrw::run,
